@@ -97,35 +97,68 @@ func (tm *typesMap) IsExternal(typ ObjectGetter) bool {
 }
 
 func (tm *typesMap) SetFuncName(funcName string, typs ...types.Type) (string, error) {
+	if vOn {
+		vtrace("SetFuncName", vm{"prefix": tm.prefix, "name": funcName, "key": vkey(typs), "matches": vmatches(tm, typs), "had": vhad(tm, funcName), "reserved": vset(tm.reserved), "autoname": tm.autoname, "dedup": tm.dedup})
+	}
 	if fName, ok := tm.nameOf(typs); ok {
 		if fName == funcName {
+			if vOn {
+				vtrace("SetFuncNameRet", vm{"prefix": tm.prefix, "res": funcName, "err": "", "branch": "same"})
+			}
 			return funcName, nil
 		}
 		if tm.dedup {
+			if vOn {
+				vtrace("SetFuncNameRet", vm{"prefix": tm.prefix, "res": fName, "err": "", "branch": "dedup"})
+			}
 			return fName, nil
+		}
+		if vOn {
+			vtrace("SetFuncNameRet", vm{"prefix": tm.prefix, "res": "", "err": "duplicate", "branch": "duplicate"})
 		}
 		return "", fmt.Errorf("ambigious function names for type %s = (%s | %s)", typs, fName, funcName)
 	}
 	if ts, ok := tm.funcToTyps[funcName]; ok {
 		if eq(ts, typs) {
+			if vOn {
+				vtrace("SetFuncNameRet", vm{"prefix": tm.prefix, "res": funcName, "err": "", "branch": "sameeq"})
+			}
 			return funcName, nil
 		}
 		if tm.autoname {
+			if vOn {
+				vtrace("SetFuncNameAuto", vm{"prefix": tm.prefix, "name": funcName, "key": vkey(typs)})
+			}
 			return tm.GetFuncName(typs...), nil
+		}
+		if vOn {
+			vtrace("SetFuncNameRet", vm{"prefix": tm.prefix, "res": "", "err": "conflict", "branch": "conflict"})
 		}
 		return "", fmt.Errorf("conflicting function names %s(%v) and %s(%v)", funcName, ts, funcName, typs)
 	}
 	tm.funcToTyps[funcName] = typs
 	tm.typss = append(tm.typss, typs)
+	if vOn {
+		vtrace("SetFuncNameRet", vm{"prefix": tm.prefix, "res": funcName, "err": "", "branch": "new"})
+	}
 	return funcName, nil
 }
 
 func (tm *typesMap) GetFuncName(typs ...types.Type) string {
 	// log.Printf("GetFuncName: %v", typs)
 	name, ok := tm.nameOf(typs)
+	if vOn {
+		vtrace("GetFuncName", vm{"prefix": tm.prefix, "key": vkey(typs), "matches": vmatches(tm, typs), "found": ok, "name": name})
+	}
 	if !ok {
 		name = tm.newName(typs)
+		if vOn {
+			vtrace("NewName", vm{"prefix": tm.prefix, "key": vkey(typs), "res": name, "reserved": vset(tm.reserved)})
+		}
 		tm.SetFuncName(name, typs...)
+	}
+	if vOn {
+		vtrace("GetFuncNameRet", vm{"prefix": tm.prefix, "key": vkey(typs), "res": name})
 	}
 	// log.Printf("GotFuncName: %s(%v)", name, typs)
 	return name
@@ -196,6 +229,9 @@ func (tm *typesMap) Generating(typs ...types.Type) {
 	name, ok := tm.nameOf(typs)
 	if !ok {
 		panic(fmt.Sprintf("generating unknown %s for types: %v", tm.prefix, typs))
+	}
+	if vOn {
+		vtrace("Generating", vm{"prefix": tm.prefix, "key": vkey(typs), "name": name, "matches": vmatches(tm, typs), "already": tm.generated[name]})
 	}
 	tm.generated[name] = true
 }
